@@ -116,6 +116,65 @@ func runLateWrong(c scenario, scale int) *rp.Fail {
 // tcp-peer-holds-connection: the TCP controller answers in time and then keeps the connection open for longer than the timeout,
 // whatever the client does with its side. The call has returned with the reply; its socket and whatever goroutines it started
 // are gone within the settling time - not when the peer finally closes, and not when the timeout would have expired.
+// generous-timeout: an application that would rather wait than fail configures a timeout of a day, a month, a year, or 'for
+// ever' (the largest durations; millisecond and second counts around 2^31 and 2^32). The controller answers at once: the
+// call returns its reply at once - on every path, with a fixed bind port or without - and leaves nothing behind.
+// (TimeoutMs is the timeout in milliseconds and is NOT scaled; ReplyPct != 0 means 'fixed bind port'.)
+func runGenerous(c scenario) *rp.Fail {
+	f := farm.New()
+	defer f.Close()
+	ip := [4]byte{127, 0, 8, 12}
+	serial := uint32(405419896)
+	cfg := hook.ClientCfg{TimeoutMs: c.TimeoutMs, BindIP: [4]byte{127, 0, 0, 1}, Debug: c.Debug}
+	switch c.Path {
+	case "tcp":
+		e, err := f.TCP(ip, 0, farm.ScriptTCP(func(r farm.Received) []farm.Action { return []farm.Action{{Data: reply(r.Data)}} }))
+		if err != nil {
+			return nil
+		}
+		cfg.Devices = []hook.DeviceCfg{{Serial: serial, HasAddr: true, IP: ip, Port: e.Addr.Port(), Protocol: "tcp"}}
+	case "udp":
+		e, err := f.UDP(ip, 0, farm.Script(func(r farm.Received) []farm.Action { return []farm.Action{{Data: reply(r.Data)}} }))
+		if err != nil {
+			return nil
+		}
+		cfg.Devices = []hook.DeviceCfg{{Serial: serial, HasAddr: true, IP: ip, Port: e.Addr.Port(), Protocol: "udp"}}
+	default:
+		e, err := f.UDP(ip, 0, farm.Script(func(r farm.Received) []farm.Action { return []farm.Action{{Data: reply(r.Data)}} }))
+		if err != nil {
+			return nil
+		}
+		cfg.HasBroadcast, cfg.BroadcastIP, cfg.BroadcastPort = true, ip, e.Addr.Port()
+	}
+	if c.ReplyPct != 0 {
+		p, err := farm.FreePort(cfg.BindIP)
+		if err != nil {
+			return nil
+		}
+		cfg.BindPort = p
+	}
+	u := hook.Real(cfg)
+	socketsBefore := farm.Sockets()
+	done := make(chan api.Result, 1)
+	t0 := time.Now()
+	go func() { done <- api.Invoke(u, call(c.Op, serial)) }()
+	select {
+	case res := <-done:
+		if res.Panic != nil || res.Err != nil {
+			return rp.Failf("generous-timeout/call-failed", "%s over %s with a timeout of %v failed after %v although the controller answered at once: %v %v", c.Op, c.Path, time.Duration(c.TimeoutMs)*time.Millisecond, time.Since(t0), res.Err, res.Panic)
+		}
+	case <-time.After(20 * time.Second):
+		return rp.Failf("generous-timeout/waited", "%s over %s with a timeout of %v has not returned 20 s after the controller answered", c.Op, c.Path, time.Duration(c.TimeoutMs)*time.Millisecond)
+	}
+	for i := 0; i < 40 && farm.Sockets() > socketsBefore; i++ {
+		time.Sleep(25 * time.Millisecond)
+	}
+	if now := farm.Sockets(); now > socketsBefore {
+		return rp.Failf("generous-timeout/socket-left-open", "%s over %s with a timeout of %v: %d sockets before the call, %d one second after it returned", c.Op, c.Path, time.Duration(c.TimeoutMs)*time.Millisecond, socketsBefore, now)
+	}
+	return nil
+}
+
 func runPeerHolds(c scenario, scale int) *rp.Fail {
 	T := time.Duration(c.TimeoutMs*scale) * time.Millisecond
 	f := farm.New()
@@ -450,6 +509,8 @@ func runScenario(c scenario, scale int) *rp.Fail {
 		return runNoDescriptors(c, scale)
 	case "multicast-broadcast":
 		return runMulticast(c, scale)
+	case "generous-timeout":
+		return runGenerous(c)
 	}
 	u := hook.Real(cfg)
 	t0 := time.Now()
@@ -597,7 +658,7 @@ func runSendFails(c scenario, scale int) *rp.Fail {
 }
 
 func checkScenario(c scenario) *rp.Fail {
-	if c.Kind == "port-released" || c.Kind == "send-fails" || c.Kind == "late-wrong-reply" || c.Kind == "tcp-peer-holds-connection" || c.Kind == "no-descriptors" || c.Kind == "multicast-broadcast" {
+	if c.Kind == "port-released" || c.Kind == "send-fails" || c.Kind == "late-wrong-reply" || c.Kind == "tcp-peer-holds-connection" || c.Kind == "no-descriptors" || c.Kind == "multicast-broadcast" || c.Kind == "generous-timeout" {
 		ev.Case("scenario/"+c.Kind, true, fmt.Sprintf("%+v", c))
 	} else {
 		ev.Case(fmt.Sprintf("scenario/%s/reply-%s", c.Kind, map[bool]string{true: "in-time", false: "after-deadline"}[c.ReplyPct <= 80]), true, fmt.Sprintf("%+v", c))
@@ -642,7 +703,23 @@ func sweepScenarios(yield func(scenario) bool) {
 	}
 	cases = append(cases, scenario{Kind: "multicast-broadcast", Op: "GetTime", TimeoutMs: 400}, scenario{Kind: "multicast-broadcast", Op: "GetDevices", TimeoutMs: 300, Debug: true})
 	cases = append(cases, scenario{Kind: "no-descriptors", Op: "GetTime", TimeoutMs: 300}, scenario{Kind: "no-descriptors", Op: "OpenDoor", TimeoutMs: 200, Debug: true})
+	// timeouts of a day .. 'for ever' with a prompt reply (milliseconds; 2^31 ms = 24.9 days, 2^32 ms = 49.7 days)
+	generous := []int{86_400_000, 2_147_483_647, 2_147_483_648, 2_592_000_000, 3_888_000_000, 4_294_967_296, 4_294_967_297, 6_442_450_944, 31_536_000_000, 4_611_686_018_427, 9_223_372_036_854}
+	for i, ms := range generous {
+		if ev.Thorough() || (i+int(ev.Seed()))%2 == 0 {
+			path := []string{"tcp", "udp", "broadcast"}[i%3]
+			if ms == 2_592_000_000 || ms == 3_888_000_000 {
+				path = "tcp"
+			}
+			cases = append(cases, scenario{Kind: "generous-timeout", Op: []string{"GetTime", "OpenDoor", "GetStatus"}[i%3], Path: path, TimeoutMs: ms, ReplyPct: i % 2, Debug: i%5 == 0})
+		}
+	}
 	if ev.Thorough() {
+		for _, ms := range generous {
+			for _, path := range []string{"tcp", "udp", "broadcast"} {
+				cases = append(cases, scenario{Kind: "generous-timeout", Op: "GetTime", Path: path, TimeoutMs: ms, ReplyPct: 1})
+			}
+		}
 		for i, path := range []string{"udp", "tcp", "broadcast"} {
 			cases = append(cases, scenario{Kind: "late-wrong-reply", Op: []string{"PutCard", "GetTime", "GetCardByID"}[i], Path: path, TimeoutMs: 1500, ReplyPct: 93})
 		}
